@@ -104,14 +104,18 @@ def run(ctx: Ctx) -> None:
         exp = "ok" if ok else "mismatch"
         ctx.case("e2e_join", c, True, key=c["key"], strict=c["strict"], via=c["via"], expected=exp, jointype=c["jointype"])
         if impl != exp:
-            ctx.violation("e2e_join", c, f"joined run outcome {impl!r}, property says {exp!r} (key columns are undeclared and must not be checked)", impl, exp)
+            # known: the API flag strict_type_enforcement=True is copied onto the REQUESTED typed features only (mlodaAPI._process_features);
+            # a typed feature that a consumer declares through input_features() is still checked with the lenient table
+            lenient_ok = all(d is None or doc_lenient(d, a) for d, a in zip(decl, c["actual"]))
+            cls = "strict-api-flag-does-not-reach-typed-input-features" if (c["strict"] == "api" and c["via"] == "consumer" and impl == "ok" and exp == "mismatch" and lenient_ok) else None
+            ctx.violation("e2e_join", c, f"joined run outcome {impl!r}, property says {exp!r} (key columns are undeclared and must not be checked)", impl, exp, finding_class=cls)
         lean_reqs.append(
             {
                 "op": "C17.validate",
                 "cols": [{"name": "l_key", "arrow": str(kt)}, {"name": "l_val", "arrow": str(at[0])}, {"name": "r_key", "arrow": str(kt)}, {"name": "r_val", "arrow": str(at[1])}],
                 "feats": [{"name": "l_key", "declared": None, "strict": None}, {"name": "r_key", "declared": None, "strict": None}]
                 + [{"name": nm, "declared": d, "strict": True if c["strict"] == "option" else None} for nm, d in (("l_val", decl[0]), ("r_val", decl[1]))],
-                "apiStrict": c["strict"] == "api",
+                "apiStrict": c["strict"] == "api" and c["via"] == "request",  # the code copies the API flag onto REQUESTED typed features only (finding F-C17-api-flag-requested-only)
             }
         )
         impls.append((c, impl))
